@@ -390,3 +390,15 @@ Example C05_fifo_example :
   prune C05_fifo_tree = TDir (mkAttrs 16877 0 0 1000 []) [([98], TFile (mkAttrs 33188 0 0 5 []) [1; 2; 3])] /\
   tar_of_tree (prune C05_fifo_tree) = tar_of_tree C05_fifo_tree /\ tar_of_tree C05_fifo_tree <> None.
 Proof. vm_compute. repeat split; try reflexivity. discriminate. Qed.
+
+(* symlink targets are opaque byte strings for tar(), the codec, the decoder and the writer: "sub/../f//"
+   (which path.Clean would turn into "f") comes back byte for byte.  In general this is the [tg' = tg]
+   of [restored] in C05_untar_restores and the NSymlink node of C05_archive_roundtrip. *)
+Definition C05_link_tree : tree :=
+  TDir (mkAttrs 16877 0 0 1000 [])
+    [ ([108], TLink (mkAttrs 41471 0 0 9 []) [115; 117; 98; 47; 46; 46; 47; 102; 47; 47]) ].
+Example C05_symlink_target_verbatim :
+  option_map (fun e : fnode => match e with FLink _ t => t | _ => [] end)
+             (look [[108]] (run_model C05_pr default_opts C05_link_tree))
+  = Some [115; 117; 98; 47; 46; 46; 47; 102; 47; 47].
+Proof. vm_compute. reflexivity. Qed.
